@@ -281,6 +281,16 @@ Theorem C03_blockinterleaved_diagonal : forall k base b i, 0 <= b < k -> 0 <= i 
   blockinterleaved_get_indices k base (i * k + b) (i * k + b) = base b i i.
 Proof. exact blockinterleaved_diagonal. Qed.
 
+(* BlockLinearOperator._getitem, fast path for step-less slices whose bounds are multiples of num_blocks, as repaired by
+   proposed_fixes/C03-block-aligned-slice (interleaved layout only; block dimension of the base not indexed): the result
+   is the same class over the base sliced from row a = start // k, column c = start // k, and its entry (x, y) is entry
+   (a*k + x, c*k + y) of the original operator (the pinned fast path is the known finding C03-block-aligned-slice) *)
+Theorem C03_blockinterleaved_aligned_slice_fixed : forall k (base : Z -> Z -> Z -> Z) a c x y,
+  0 < k -> 0 <= a -> 0 <= c -> 0 <= x -> 0 <= y ->
+  blockinterleaved_get_indices k base (a * k + x) (c * k + y) =
+  blockinterleaved_get_indices k (fun b i j => base b (a + i) (c + j)) x y.
+Proof. exact blockinterleaved_aligned_slice. Qed.
+
 (* BatchRepeat: entry b of a batch dimension repeated `rep` times is entry b.fmod(size) of the base *)
 Theorem C03_batchrepeat : forall (l : list Z) rep b, (b < rep * length l)%nat ->
   nth b (concat (repeat l rep)) 0 = nth (Z.to_nat (batchrepeat_index (Z.of_nat (length l)) (Z.of_nat b))) l 0.
